@@ -5,11 +5,13 @@
 (* of structure marks: `cur` is the stack of constructs being derived (statement, declaration, registered item), *)
 (* `refs` the stack of open blocks (each entry is the key of the construct that opened it), `nextKey` the next   *)
 (* free key. Output items:                                                                                       *)
-(*    <<"t", text>>                      a token                                                                 *)
+(*    <<"t", text>> / <<"i", text>>      a token / a token that the grammar knows to be an identifier            *)
 (*    <<"m", kind, key, ref, delta>>     a mark for the NEXT token: kind S/D (statement / declaration member:    *)
 (*                                       first on its line, delta units deeper than the line of token `ref`),    *)
 (*                                       C (closer: first on its line at ref's indentation), B (control-flow     *)
-(*                                       `begin`, only under begin_style=always_wrap), R (registered, no claim). *)
+(*                                       `begin`, only under begin_style=always_wrap), R / A (registered, no     *)
+(*                                       claim), T (item of a declaration part: at file level it starts a line,  *)
+(*                                       not indented).                                                          *)
 (*                                       ref = 0 is the file level (no indentation).                             *)
 (* One action per kind of symbol, so that TLC's coverage shows which parts of the grammar were derived.           *)
 EXTENDS Grammar, Json
@@ -31,7 +33,7 @@ Init == /\ stack = << <<"n", Start>> >>
 Top == Head(stack)
 Pop == Tail(stack)
 
-Terminal == /\ stack # <<>> /\ Top[1] = "t"
+Terminal == /\ stack # <<>> /\ Top[1] \in {"t", "i"}
             /\ out' = Append(out, Top)
             /\ stack' = Pop
             /\ UNCHANGED <<budget, cur, refs, nextKey, done>>
@@ -46,7 +48,7 @@ Expand == /\ stack # <<>> /\ Top[1] = "n"
 Mark(kind, ref, delta) == <<"m", kind, nextKey, ref, delta>>
 
 \* @S / @D / @R / @A: a construct starts; its first token gets the next key
-BeginConstruct == /\ stack # <<>> /\ Top[1] = "p" /\ Top[2] \in {"S", "D", "R", "A"}
+BeginConstruct == /\ stack # <<>> /\ Top[1] = "p" /\ Top[2] \in {"S", "D", "R", "A", "T"}
                   /\ out' = Append(out, Mark(Top[2], refs[Len(refs)], 1))
                   /\ cur' = Append(cur, nextKey)
                   /\ nextKey' = nextKey + 1
